@@ -133,7 +133,98 @@ def inline_helpers(raw, max_rounds=6):
                 changed = True
         if not changed: break
     for h in used: out.pop(h, None)
+    for p in list(out):
+        # every function: `let r = match .. { A => Some(x), B => None }; if let Some(x) = r { .. }` has the same merge-then-test shape as an inlined helper
+        if not any(bb["term"].get("inl_call") for bb in out[p]["blocks"]):
+            out[p] = dict(out[p]); out[p]["blocks"] = [dict(b) for b in out[p]["blocks"]]
+        thread_known_variants(out[p])
     return out, used
+
+
+_VARIANT_INDEX = {"Ok": 0, "Err": 1, "None": 0, "Some": 1, "Continue": 0, "Break": 1}
+_BRANCH = {"Ok": "Continue", "Err": "Break", "Some": "Continue", "None": "Break"}
+
+
+def thread_known_variants(j, max_chain=5):
+    """jump threading after inlining: a helper returning `Err(..)` on one path and `Ok(..)` on another merges both at the call's continuation, where
+    the caller immediately tests the variant (`?`, `match`, `if let`). The merge loses dominance facts (the store on the Ok path no longer
+    dominates what follows the `?`). For every predecessor whose result variant is evident from the statements it executes, the short
+    continuation chain up to the discriminant switch is cloned and the switch is resolved. Purely a CFG normalisation: no path is added."""
+    blocks = j["blocks"]
+    def succs(b):
+        t = b["term"]; k = t["k"]
+        if k == "goto": return [t["target"]]
+        if k == "switch": return [x for _, x in t["targets"]] + [t["otherwise"]]
+        if k in ("call", "assert", "drop"): return [t["target"]] if t.get("target") is not None else []
+        return []
+    def step_stmt(st, env, denv):
+        if st["k"] != "assign" or st["place"]["proj"]: return
+        l = st["place"]["local"]; rv = st["rv"]
+        env.pop(l, None); denv.pop(l, None)
+        if rv["k"] == "aggr" and rv.get("vname") in _VARIANT_INDEX and (rv.get("path") or "").split("::")[-1] in ("Result", "Option", "ControlFlow"): env[l] = rv["vname"]
+        elif rv["k"] == "use" and rv["op"]["k"] in ("copy", "move") and not rv["op"]["place"]["proj"] and rv["op"]["place"]["local"] in env: env[l] = env[rv["op"]["place"]["local"]]
+        elif rv["k"] == "discr" and not rv["place"]["proj"] and rv["place"]["local"] in env: denv[l] = _VARIANT_INDEX[env[rv["place"]["local"]]]
+        elif rv["k"] == "use" and rv["op"]["k"] == "const" and isinstance(rv["op"].get("val"), int) and (rv["op"].get("ty") or {}).get("k") == "bool": denv[l] = rv["op"]["val"]
+        elif rv["k"] == "use" and rv["op"]["k"] in ("copy", "move") and not rv["op"]["place"]["proj"] and rv["op"]["place"]["local"] in denv: denv[l] = denv[rv["op"]["place"]["local"]]
+        elif rv["k"] == "un" and rv.get("op") == "Not" and rv["a"]["k"] in ("copy", "move") and not rv["a"]["place"]["proj"] and rv["a"]["place"]["local"] in denv and denv[rv["a"]["place"]["local"]] in (0, 1): denv[l] = 1 - denv[rv["a"]["place"]["local"]]
+    changed = True; rounds = 0
+    while changed and rounds < 40:
+        changed = False; rounds += 1
+        preds = {}
+        for b in blocks:
+            if b.get("cleanup"): continue
+            for x in succs(b): preds.setdefault(x, []).append(b["i"])
+        for S in list(blocks):
+            if S["term"]["k"] != "switch" or S.get("cleanup"): continue
+            on = S["term"]["on"]
+            if on["k"] not in ("copy", "move") or on["place"]["proj"]: continue
+            chain = [S["i"]]
+            cur = S["i"]
+            while len(chain) < max_chain:
+                ps = preds.get(cur, [])
+                if len(ps) != 1: break
+                p = blocks[ps[0]]
+                if p["term"]["k"] not in ("goto", "call") or len(succs(p)) != 1 or p.get("cleanup") or p["i"] in chain: break
+                chain.insert(0, p["i"]); cur = p["i"]
+            head = chain[0]
+            hp = preds.get(head, [])
+            if len(hp) < 2: continue
+            for pi in hp:
+                P = blocks[pi]
+                if P["term"]["k"] != "goto" or P.get("cleanup"): continue
+                env, denv = {}, {}
+                for st in P["stmts"]: step_stmt(st, env, denv)
+                ok = True
+                for ci in chain:
+                    cb = blocks[ci]
+                    for st in cb["stmts"]: step_stmt(st, env, denv)
+                    if ci != S["i"]:
+                        tm = cb["term"]
+                        if tm["k"] == "call":
+                            d = tm["dest"]["local"] if not tm["dest"]["proj"] else None
+                            if d is not None: env.pop(d, None); denv.pop(d, None)
+                            nm = tm.get("resolved") or tm.get("callee") or ""
+                            a0 = tm["args"][0] if tm["args"] else None
+                            if nm.endswith("Try>::branch") and a0 and a0["k"] in ("copy", "move") and not a0["place"]["proj"] and a0["place"]["local"] in env and d is not None:
+                                env[d] = _BRANCH[env[a0["place"]["local"]]]
+                d = on["place"]["local"]
+                if d not in denv: continue
+                val = denv[d]
+                tgt = dict((v, x) for v, x in S["term"]["targets"]).get(val, S["term"]["otherwise"])
+                # clone the chain for this predecessor
+                base = len(blocks); remap = {ci: base + k for k, ci in enumerate(chain)}
+                for ci in chain:
+                    cb = blocks[ci]
+                    nb = {"i": remap[ci], "cleanup": False, "stmts": json.loads(json.dumps(cb["stmts"])), "term": json.loads(json.dumps(cb["term"])), "threaded_from": ci}
+                    if ci == S["i"]: nb["term"] = {"k": "goto", "target": tgt, "span": cb["term"]["span"], "threaded": val}
+                    else:
+                        nxt = remap[chain[chain.index(ci) + 1]]
+                        if nb["term"]["k"] == "goto": nb["term"]["target"] = nxt
+                        else: nb["term"]["target"] = nxt
+                    blocks.append(nb)
+                P["term"] = dict(P["term"]); P["term"]["target"] = remap[head]
+                changed = True
+            if changed: break
 
 
 def is_log_or_derive(span):
@@ -371,6 +462,9 @@ def _project(base, pr, fn):
             return ("deref", b)
         return ("deref", base)
     if k == "field":
+        if base[0] == "as":
+            v = _known_payload(base[1], base[2], pr["i"])
+            if v is not None: return v
         if base[0] == "aggr" and base[3] and pr["i"] < len(base[3]) and base[1] in ("tuple", None) or (base[0] == "aggr" and base[1] == "tuple"):
             return base[3][pr["i"]]
         if base[0] == "aggr" and base[4] and pr["name"] in base[4]:
@@ -383,6 +477,36 @@ def _project(base, pr, fn):
     if k == "cindex":
         return ("index", base, ("const", pr["off"], None))
     return (k, base)
+
+
+_TRY = {"Continue": ("Ok", "Some"), "Break": ("Err", "None")}
+
+def _known_payload(x, variant, i, depth=0):
+    """payload field i of `x as variant` when x is visibly built as that variant: an aggregate, a merge of aggregates of which exactly one kind
+    can be `variant`, or `Try::branch(r)` of such a value (`r?` yields the Ok/Some payload). Makes a value returned through `Ok(v)` / `Some(v)` by
+    a (now inlined) helper transparent to the origin layer."""
+    if depth > 4 or not isinstance(x, tuple): return None
+    while x and x[0] in ("ref", "deref") and isinstance(x[1], tuple): x = x[1]
+    if x[0] == "aggr":
+        if x[2] == variant and i < len(x[3]): return x[3][i]
+        return None
+    if x[0] == "phi":
+        outs = []
+        for a in x[2]:
+            if isinstance(a, tuple) and a[0] == "aggr" and a[2] != variant: continue      # cannot be this variant
+            v = _known_payload(a, variant, i, depth + 1)
+            if v is None: return None
+            outs.append(v)
+        outs = _dedup(outs)
+        return outs[0] if len(outs) == 1 else None
+    if x[0] == "call" and x[1].endswith("Try>::branch") and variant in _TRY and x[2]:
+        for inner in _TRY[variant]:
+            v = _known_payload(x[2][0], inner, 0, depth + 1)
+            if v is not None:
+                # Continue(c): c is the Ok/Some payload itself (field 0 of the ControlFlow)
+                return v if i == 0 else None
+        return None
+    return None
 
 
 def _doms(n, entry, succ, pred, nodes):
@@ -462,6 +586,27 @@ def fmt(o, depth=0):
     if k == "fn":
         return short(o[1])
     return str(o)
+
+
+def stable(o):
+    """like fmt, but a value merged from several definitions (a loop variable, a conditionally assigned local) is rendered by the identity of
+    its MIR local instead of by the (depth-limited) expansion of its definitions: two uses of the same loop index compare equal"""
+    if not isinstance(o, tuple): return str(o)
+    k = o[0]
+    if k == "phi": return f"phi#{o[1]}"
+    if k == "param": return f"P{o[1]}({o[2] or ''})"
+    if k == "const": return f"{o[1] if o[1] is not None else o[2]}"
+    if k == "field": return f"{stable(o[1])}.{o[2]}"
+    if k == "deref": return f"*{stable(o[1])}"
+    if k == "ref": return f"&{stable(o[1])}"
+    if k == "call": return f"{short(o[1])}({', '.join(stable(a) for a in o[2])})"
+    if k == "bin": return f"({stable(o[2])} {o[1]} {stable(o[3])})"
+    if k == "un": return f"{o[1]}({stable(o[2])})"
+    if k == "cast": return stable(o[2])
+    if k == "as": return f"{stable(o[1])} as {o[2]}"
+    if k == "index": return f"{stable(o[1])}[{stable(o[2])}]"
+    if k == "aggr": return f"{short(str(o[1]))}::{o[2]}{{{', '.join(stable(a) for a in o[3])}}}"
+    return fmt(o)
 
 
 def short(p):
